@@ -1237,6 +1237,13 @@ class Workspace(AbstractContextManager):
 
         :param entity: The entity to be registered.
         """
+        if isinstance(entity, (Group, Data, ObjectBase)):
+            # identifiers are unique across groups, objects and data
+            for referents in (self._groups, self._data, self._objects):
+                other = referents.get(entity.uid, None)
+                if other is not None and other() not in (None, entity):
+                    raise RuntimeError(f"Key '{entity.uid}' already used.")
+
         if isinstance(entity, EntityType):
             weakref_utils.insert_once(self._types, entity.uid, entity)
         elif isinstance(entity, Group):
